@@ -120,6 +120,15 @@ TypeSchema(t0) ==
     ELSE IF IsMap(t) THEN [k |-> "map", value |-> TypeSchema(SubSeq(t, 12, Len(t)))]
     ELSE [k |-> "ref", name |-> BareName(t)]
 NoSchema == [k |-> "none"]
+\* validator tag -> format keyword (stated once, for both dialects): a format rule applies to string schemas only and the last one wins
+FormatRules == {"email", "uuid", "ip", "ipv4", "ipv6", "hostname", "date", "datetime"}
+FormatOf(r) == CASE r = "ip" -> "ipv4" [] r = "datetime" -> "date-time" [] OTHER -> r
+RuleName(r) == Split(r, "=")[1]
+RECURSIVE LastFormatIn(_, _)
+LastFormatIn(rs, i) == IF i = 0 THEN "" ELSE IF RuleName(rs[i]) \in FormatRules THEN FormatOf(RuleName(rs[i])) ELSE LastFormatIn(rs, i - 1)
+LastFormat(v) == IF v = "" THEN "" ELSE LastFormatIn(Split(v, ","), Len(Split(v, ",")))
+SchemaV(t, v) == LET sc == TypeSchema(t) lf == LastFormat(v)
+                 IN  IF sc.k = "prim" /\ sc.t = "string" /\ sc.f = "" /\ lf # "" THEN [sc EXCEPT !.f = lf] ELSE sc   \* (Go strings; not time.Time / []byte)
 
 \* documented parameters: the non-context path/query/header parameters in SIGNATURE order
 RECURSIVE ExpParamsFrom(_, _)
@@ -130,7 +139,7 @@ ExpParamsFrom(m, i) ==
          IN  IF IsContext(s.type) \/ as = {} THEN ExpParamsFrom(m, i + 1)
              ELSE LET a == CHOOSE x \in as : TRUE IN
                   IF a.kind \in {"Path", "Query", "Header"}
-                  THEN <<[name |-> WireName(a), in |-> InOf(a.kind), required |-> RequiredParam(s, a), schema |-> TypeSchema(s.type)]>> \o ExpParamsFrom(m, i + 1)
+                  THEN <<[name |-> WireName(a), in |-> InOf(a.kind), required |-> RequiredParam(s, a), schema |-> SchemaV(s.type, a.validate)]>> \o ExpParamsFrom(m, i + 1)
                   ELSE ExpParamsFrom(m, i + 1)
 ExpParams(m) == ExpParamsFrom(m, 1)
 
@@ -155,7 +164,7 @@ ExpBody(m) ==
                         IN  [kind |-> "json", required |-> RequiredParam(m.sig[i], a), schema |-> TypeSchema(m.sig[i].type), fields |-> {}]
         ELSE IF fs # {} THEN [kind |-> "form", required |-> FALSE, schema |-> NoSchema,
                               fields |-> { LET a == CHOOSE x \in AnnFor(m, m.sig[i].name) : x.kind = "FormField"
-                                           IN [name |-> WireName(a), required |-> RequiredParam(m.sig[i], a), schema |-> TypeSchema(m.sig[i].type)] : i \in fs }]
+                                           IN [name |-> WireName(a), required |-> RequiredParam(m.sig[i], a), schema |-> SchemaV(m.sig[i].type, a.validate)] : i \in fs }]
         ELSE [kind |-> "none", required |-> FALSE, schema |-> NoSchema, fields |-> {}]
 
 \* success: @Response code if present, else 200 with the value type when (T, error), else 204 without content
@@ -202,7 +211,7 @@ FieldDep(f) == IF TypeSchema(f.type).k = "ref" THEN "any" ELSE IF f.deprecated T
 SchemaOf(p, t) ==
     CASE t.kind = "struct" ->
             [k |-> "object", deprecated |-> t.deprecated,
-             props |-> { [name |-> JsonName(f), schema |-> TypeSchema(f.type), dep |-> FieldDep(f)] : f \in {x \in Range(t.fields) : ~x.embed /\ JsonVisible(x)} },
+             props |-> { [name |-> JsonName(f), schema |-> SchemaV(f.type, f.valid), dep |-> FieldDep(f)] : f \in {x \in Range(t.fields) : ~x.embed /\ JsonVisible(x)} },
              required |-> { JsonName(f) : f \in {x \in Range(t.fields) : ~x.embed /\ JsonVisible(x) /\ "required" \in Rules(x.valid)} },
              allOf |-> { BareName(CoreType(f.type)) : f \in {x \in Range(t.fields) : x.embed} }]
       [] t.kind = "enum" -> [k |-> "enum", deprecated |-> t.deprecated, t |-> PrimOf(t.base), values |-> {c.value : c \in Range(t.consts)}]
